@@ -556,10 +556,20 @@ class OptionsParser:
             if handler:
                 handler(self, option, value)
             else:
-                values = cast(List[str], self.options.setdefault(option, []))
+                values = self.options.setdefault(option, [])
+
+                if not isinstance(values, list):
+                    raise ValueError(f'Conflicting values for {option} option')
+
                 values.append(value)
         else:
-            self.options[option.lower()] = True
+            option = option.lower()
+
+            if option in self._handlers or \
+                    isinstance(self.options.get(option), list):
+                raise ValueError(f'Missing value for {option} option')
+
+            self.options[option] = True
 
     def _parse_options(self, line: str) -> str:
         """Parse options in this entry"""
